@@ -11,12 +11,14 @@ for pid, cfg in sorted(props.PROPS.items()):
     lvl = cfg['level']
     if lvl == 'proof':
         text = ('Deductive proof (Verus/Z3) of every clause tagged %s on the real function bodies extracted from /repo on every run, for all inputs, sizes, limits, list lengths, orders, hashers and capacities, '
-                'relative to the assumed contracts of the unsafe pointer layer and of hashbrown; those assumed contracts are exercised only boundedly (Kani, <= 3 entries) and that part is labelled bounded, never counted as proved.' % pid)
+                'relative to the assumed contracts of the unsafe pointer layer and of hashbrown; those assumed contracts are exercised boundedly (Kani, <= 3 entries; labelled bounded, never counted as proved)' % pid
+                + ('; the link-manipulating part of the pointer layer is in addition proved without bound in heap-passing form (template l1, DESIGN section 3.8) relative to the memory model A-HEAP.' if 'l1' in cfg['templates'] else '.'))
         text += (' ' + cfg['level_extra']) if cfg.get('level_extra') else ''
     else:
         text = ('Bounded model checking (Kani/CBMC) of the real unsafe code for caches of <= 3 entries / capacity <= 4 with contract-style postconditions (structural walker, ownership ledger, fingerprint, counters, modifies frames)'
-                + ('; in addition Verus proves, without bound, the clauses tagged %s on the extracted control-layer functions' % pid if cfg['templates'] else '')
-                + '. A deductive verifier cannot reach the raw-pointer code (no permission tokens), so this is the bounded stand-in the technique allows; never counted as proved.')
+                + ('; in addition Verus proves, without bound, the clauses tagged %s on the extracted functions' % pid if cfg['templates'] else '')
+                + ((' -- since round 8 including the link-manipulating pointer code itself in heap-passing form (template l1, DESIGN section 3.8: ring invariant, order effects, fresh addresses, the node heap unchanged by &self functions), relative to the assumed memory model A-HEAP') if 'l1' in cfg['templates'] else '')
+                + '. What no contract in reach decides for this property (liveness of buckets and initialisation of memory, ownership of moved-out values, unwinding, hash counts) stays with the bounded harnesses: that is the bounded stand-in the technique allows, labelled bounded and never counted as proved.')
     checks.append({
         'property_id': pid,
         'quick_cmd': './check %s --tier quick' % pid,
